@@ -176,6 +176,10 @@ class CodeGen:
     func_defeat: asm.AssemblyExpression                        = dc.field(init=False, default=stdlib.halt)
     needs_variable_defeat: bool                                = dc.field(init=False, default=False)
     needs_return_protection: bool                              = dc.field(init=False, default=False)
+    # Size of array literals whose elements are currently being
+    # evaluated: ap has already been advanced past them, but they are
+    # not part of self.stack until the literal is complete.
+    pending_array_size: int                                    = dc.field(init=False, default=0)
 
     argv_specs: list[bytes]                                    = dc.field(init=False, default_factory=list)
     entry_args: list[asm.Directive]                            = dc.field(init=False, default_factory=list)
@@ -751,6 +755,9 @@ class CodeGen:
                 # It should be fine not to update self.stack yet though.
                 yield asm.Metadata('Array allocation (ArrayLiteral)')
                 yield asm.Add(self.ap, asm.State(self.ap), asm.IntLiteral(static_size))
+                # Anything pushed while the elements are evaluated
+                # shares the stack with the array we just allocated.
+                self.pending_array_size += static_size
                 if el_type == DataType.BOOL:
                     foundation = self.pack_bools([
                         isinstance(el_expr, ast.BoolValue) and el_expr.data
@@ -798,6 +805,7 @@ class CodeGen:
                         offset += stride
                     assert offset == 0
 
+                self.pending_array_size -= static_size
                 access_mode = AccessMode.R if expr.type.const else AccessMode.RW
                 return self.create_new_stack_array(
                     ConcreteArrayType(expr.type.el_type, access_mode),
@@ -942,7 +950,8 @@ class CodeGen:
             # about the bytes it may use below our frame.
             max_digits = len(str(self.max_signed + 1))
             self.checkpoints.update(
-                self.stack.static_size + max(0, max_digits - self.word_size)
+                self.stack.static_size + self.pending_array_size
+                + max(0, max_digits - self.word_size)
             )
         yield asm.Add(self.fp, asm.State(self.fp), asm.IntLiteral(-offset))
         yield from self.goto(label)
@@ -1423,7 +1432,7 @@ class CodeGen:
         prev = self.stack
         cur = prev.add(offset=1)
         self.stack = cur
-        self.checkpoints.update(self.stack.static_size)
+        self.checkpoints.update(self.stack.static_size + self.pending_array_size)
         return ValueBubble(prev, cur, asm.IndirectByte(
             asm.Section.STATE, asm.State(self.fp),
             asm.IntLiteral(-cur.offset)
@@ -1433,7 +1442,7 @@ class CodeGen:
         prev = self.stack
         cur = prev.add(offset=self.word_size)
         self.stack = cur
-        self.checkpoints.update(self.stack.static_size)
+        self.checkpoints.update(self.stack.static_size + self.pending_array_size)
         return ValueBubble(prev, cur, asm.Indirect(
             asm.Section.STATE, asm.State(self.fp),
             asm.IntLiteral(-cur.offset)
